@@ -70,6 +70,9 @@ fn variants() -> Vec<Variant> {
         Variant { name: "file_watch_and_dir_watch_save_atomic", watch_file: Some("src/a.lua"), steps: vec![edit("src/a.lua", SaveStyle::Atomic)] },
         Variant { name: "file_watch_and_dir_watch_delete_recreate", watch_file: Some("src/a.lua"), steps: vec![edit("src/a.lua", SaveStyle::DeleteRecreate)] },
         Variant { name: "file_watch_and_dir_watch_delete", watch_file: Some("src/a.lua"), steps: vec![rm("src/a.lua")] },
+        Variant { name: "rename_directory", watch_file: None, steps: vec![mv("src/sub", "src/moved")] },
+        Variant { name: "rename_directory_then_edit_inside", watch_file: None, steps: vec![mv("src/sub", "src/moved"), Step::Sleep(700), edit("src/moved/b.lua", SaveStyle::InPlace)] },
+        Variant { name: "move_file_into_other_directory", watch_file: None, steps: vec![mv("src/a.lua", "src/sub/deep/a.lua")] },
         Variant { name: "file_watch_save_in_place", watch_file: Some("ext/dep.lua"), steps: vec![edit("ext/dep.lua", SaveStyle::InPlace)] },
         Variant { name: "file_watch_and_dir_watch_save_in_place", watch_file: Some("src/a.lua"), steps: vec![edit("src/a.lua", SaveStyle::InPlace)] },
     ]
